@@ -53,7 +53,7 @@ QsOf(kind, q) == LET n == CASE kind = 0 -> 0 [] kind = 1 -> 1 [] kind \in {2, 3}
 \* three distinct pool indices derived from a salt
 QPick(salt) == << 1 + (salt % NQ), 1 + ((salt + 7) % NQ), 1 + ((salt + 13) % NQ) >>
 
-Fam == [nstate : Nat, nstream : {2, 3}, winset : 1..5, stage : 0..2, gv : BOOLEAN, shape : 0..5,
+Fam == [nstate : Nat, nstream : {2, 3}, winset : 1..6, stage : 0..2, gv : BOOLEAN, shape : 0..5,
         quoted : BOOLEAN, salt : Nat]
 
 \* window sets (coefficients in dyadics)
@@ -63,9 +63,13 @@ WAccel  == << <<1, 0>>, <<-2, 0>>, <<1, 0>> >>
 WDelta5 == << <<-1, 2>>, <<-1, 1>>, <<0, 0>>, <<1, 1>>, <<1, 2>> >>      \* width 5
 WAccel5 == << <<1, 2>>, <<0, 0>>, <<-1, 1>>, <<0, 0>>, <<1, 2>> >>
 WStatic3 == << <<0, 0>>, <<1, 0>>, <<0, 0>> >>                            \* the same static window, declared with zero-weight neighbours
+\* the standard HTS five-frame regression windows, as decimal fractions (<<n, -e>> = n / 10^e)
+WDelta5d == << <<-2, -1>>, <<-1, -1>>, <<0, 0>>, <<1, -1>>, <<2, -1>> >>
+WAccel5d == << <<285714, -6>>, <<-142857, -6>>, <<-285714, -6>>, <<-142857, -6>>, <<285714, -6>> >>
 WinSet(k) == CASE k = 1 -> << WStatic >> [] k = 2 -> << WStatic, WDelta >> [] k = 3 -> << WStatic, WDelta, WAccel >>
                [] k = 4 -> << WStatic, WDelta5, WAccel5 >>
                [] k = 5 -> << WStatic3, WDelta >>
+               [] k = 6 -> << WStatic, WDelta5d, WAccel5d >>
 
 \* ---- PDF words (all dyadic).  h mixes the indices into a small number.
 Mix(a, b, c, d) == (a * 7 + b * 13 + c * 5 + d * 3)
@@ -89,7 +93,9 @@ StreamWords(f, name, vlen, nwin, msd, tp, pdf) ==
                  CASE name = "MCP" -> McpMean(f, tp, pdf, w, i)
                    [] name = "LF0" -> IF w = 1 THEN << 18 + (Mix(tp, pdf, 0, WSalt(f)) % 4), 2 >>     \* 4.5 .. 5.25
                                       ELSE << (Mix(tp, pdf, w, WSalt(f)) % 3) - 1, 5 >>
-                   [] OTHER -> IF vlen = 1 THEN << 1, 0 >> ELSE (IF i = 2 THEN << 1, 1 >> ELSE << 1, 2 >>)  \* LPF taps
+                   \* LPF taps: they differ from state to state and (vlen = 3) are not symmetric about the centre tap
+                   [] OTHER -> IF vlen = 1 THEN << 3 + (Mix(tp, pdf, 0, WSalt(f)) % 3), 2 >>          \* 3/4, 1, 5/4
+                               ELSE (IF i = 2 THEN << 1, 1 >> ELSE IF i = 1 THEN << 1 + (Mix(tp, pdf, 1, WSalt(f)) % 2), 2 >> ELSE << 1, 3 >>)
       vari(j) == << 1 + (Mix(tp, j, WSalt(f) + 1, pdf) % 3), 2 >>                                   \* 1/4, 1/2, 3/4
   IN [j \in 1..n |-> mean(j)] \o [j \in 1..n |-> vari(j)] \o
      (IF msd THEN << << 1 + 2 * (Mix(tp, pdf, 2, WSalt(f)) % 4), 3 >> >> ELSE <<>>)                 \* 1/8, 3/8, 5/8, 7/8
@@ -103,9 +109,12 @@ StreamModel(f, name, vlen, nwin, msd, sidx) ==
       q(tp) == QPick(f.salt + 3 * tp + 5 * sidx)
       used == UNION { { q(tp)[i] : i \in 1..Len(QsOf(kind(tp), q(tp))) } : tp \in 1..f.nstate }
       qseq == SelectSeq([i \in 1..NQ |-> i], LAMBDA i : i \in used)
+      \* the format does not prescribe the order of a model's trees: the k-th PDF block belongs to the k-th tree of the
+      \* file, whatever its state tag.  Odd salts write the trees (and their blocks) in descending state order.
+      at(k) == IF f.salt % 2 = 1 THEN f.nstate + 1 - k ELSE k
   IN [qs |-> [i \in 1..Len(qseq) |-> QuestionTable[qseq[i]]],
-      trees |-> [tp \in 1..f.nstate |-> Shape(kind(tp), tp + 1, q(tp))],
-      pdfs |-> [tp \in 1..f.nstate |-> [p \in 1..NPdf(kind(tp)) |-> StreamWords(f, name, vlen, nwin, msd, tp, p)]]]
+      trees |-> [k \in 1..f.nstate |-> Shape(kind(at(k)), at(k) + 1, q(at(k)))],
+      pdfs |-> [k \in 1..f.nstate |-> [p \in 1..NPdf(kind(at(k))) |-> StreamWords(f, name, vlen, nwin, msd, at(k), p)]]]
 GvModel(f, vlen, sidx) == LET k == (f.shape + sidx) % 2  q == QPick(f.salt + 11 * sidx) IN
   [qs |-> QsOf(k, q), trees |-> << Shape(k, 2, q) >>, pdfs |-> << [p \in 1..NPdf(k) |-> GvWords(f, vlen, p)] >>]
 NoModel == [qs |-> <<>>, trees |-> <<>>, pdfs |-> <<>>]
